@@ -82,7 +82,7 @@ pub fn make_case(seed: u64, tier: Tier, idx: u64, scope: &SmallScope) -> Case {
 
 pub fn step_limit(r: &Reference) -> u64 {
     let cfg = r.ctx.cfg;
-    let items: u64 = r.lalr.states.iter().map(|s| s.iter().map(|(_, la)| la.count_ones() as u64).sum::<u64>()).sum();
+    let items: u64 = r.lalr.states.iter().map(|s| s.iter().map(|(_, la)| la.len() as u64).sum::<u64>()).sum();
     let states = r.lalr.states.len() as u64;
     1_000_000 + 1000 * (states + items + 1) * (cfg.rules.len() as u64 + 1) * (cfg.nt as u64 + 2)
 }
@@ -268,6 +268,10 @@ impl LalrDiff {
         let limit = step_limit(&r);
         let (out, hc) = kside::generate(&case.src, limit);
         w.max("oset_checks_per_call", hc.oset_checks);
+        w.max("max-terminals", case.cfg.nt as u64);
+        w.max("max-nonterminals", case.cfg.nn as u64);
+        w.max("max-rules", case.cfg.rules.len() as u64);
+        w.max("max-rhs-length", case.cfg.rules.iter().map(|r| r.rhs.len()).max().unwrap_or(0) as u64);
         let class = r.class();
         let witness = |extra: Value| -> Value {
             json!({"grammar_src": case.src, "cfg": case.cfg.show(), "reference_class": class.name(),
